@@ -18,6 +18,10 @@ CLAIMS = {
             "Decides a structural necessary condition on ALL paths of ALL allocation entry points: per successful path exactly one atom / one heap contribution / one pair, none on failing paths; restore field coverage; reporters. Not the arithmetic of sizes.",
             "Trusts rustc's MIR and the effect recogniser (Vec method names, ghost counter field names resolved by type); bulk append loop tied to the checked size by C13. Known finding: new_substr small-integer slice counted on the heap.",
             "DESIGN.md 4/C12"),
+    "C06": ("sibling agreement: canonical CFG serialisation of MIR (DFS block order, first-occurrence local renaming, callee/type maps) and exact comparison",
+            "Decides that each op_X's non-MALACHITE body and op_X_malachite are the SAME program up to the bignum library (every threshold, flag test, cost expression, message and the order of checks), that the prologue forwards unchanged, that the two canonical-integer encoders are the same program and that nothing else reads the flag. All ~1200 canonical MIR lines of the 5 pairs are compared.",
+            "Assumes the two bignum libraries agree on methods of the same name (div_floor, div_mod_floor, modpow, sign, to_signed_bytes_be, to_u32) and that int_atom/malachite_int_atom decode the same value and length: library semantics are not decided. A one-sided behaviour-preserving restructure is reported (the siblings are meant to stay parallel).",
+            "DESIGN.md 4/C06"),
     "C15": ("threshold-table extraction from comparison chains / integer matches in MIR (interval path enumeration) and cross-table relations",
             "Decides the table clause: the length-prefix rows of the writer, of the two length functions, of the canonical check and the decoder caps are mutually consistent and each n-byte row ends at 2^(7n-1) (shortest prefix). ALL rows of ALL five tables; not decode(encode(x)) == x.",
             "Trusts rustc's MIR and constant evaluation; u32 truncation of atom lengths in serialized_length_atom is harmless because the heap limit is <= u32::MAX (C13/R13c). Round-trip on trees is not decided.",
